@@ -55,11 +55,12 @@ def _(src: Str, dlm: Str, preserve_quotes_and_whitespaces: Bool) -> Tuple[List[S
     loop_types(0, extraction_report=Tuple[Int, Bool])
     invariant(0, 0 <= cidx and is_fresh(result) and allow_external_whitespaces == (dlm != ' ') and len(src) > 0, 'bounds')
     invariant(0, contents(result) + split_from(src, dlm, dlm != ' ', preserve_quotes_and_whitespaces, cidx)
-              == split_from(src, dlm, dlm != ' ', preserve_quotes_and_whitespaces, 0), 'fields_so_far')
+              == split_from(src, dlm, dlm != ' ', preserve_quotes_and_whitespaces, 0), 'fields_so_far', hide=['field_text', 'field_stop', 'field_warn', 'split_from'])
     loop_hint(0, split_from(src, dlm, dlm != ' ', preserve_quotes_and_whitespaces, at_iter_start(cidx))
-              == [field_text(src, dlm, at_iter_start(cidx), dlm != ' ', preserve_quotes_and_whitespaces)] + split_from(src, dlm, dlm != ' ', preserve_quotes_and_whitespaces, cidx))
+              == [field_text(src, dlm, at_iter_start(cidx), dlm != ' ', preserve_quotes_and_whitespaces)] + split_from(src, dlm, dlm != ' ', preserve_quotes_and_whitespaces, cidx),
+              hide=['field_text', 'field_stop', 'field_warn'])
     loop_hint(0, contents(result) == at_iter_start(contents(result)) + [field_text(src, dlm, at_iter_start(cidx), dlm != ' ', preserve_quotes_and_whitespaces)])
-    invariant(0, (warning or warn_from(src, dlm, dlm != ' ', cidx)) == warn_from(src, dlm, dlm != ' ', 0), 'warning_so_far')
+    invariant(0, (warning or warn_from(src, dlm, dlm != ' ', cidx)) == warn_from(src, dlm, dlm != ' ', 0), 'warning_so_far', hide=['field_text', 'field_stop', 'field_warn'])
     # C11: with a quote in the line, the fields are exactly the dialect's fields and the warning is exact
     ensures(implies('"' in src, contents(result_value()[0]) == split_spec(src, dlm, preserve_quotes_and_whitespaces)), 'fields_follow_the_dialect')
     ensures(implies('"' in src, result_value()[1] == warn_from(src, dlm, dlm != ' ', 0)), 'warning_iff_unquoted_field_has_quote')
